@@ -346,6 +346,85 @@ Lemma unchecked_accepts_malformed :
   basic_auth "user" "pass" "Basic dXNlcjpwYXNz!" = VDenied401.
 Proof. vm_compute. auto. Qed.
 
+(* ================================================================ requests without a header; chains without BasicAuth *)
+Lemma no_header_challenged : forall ce login pass, basic_auth_gen ce login pass "" = VChallenge401.
+Proof. reflexivity. Qed.
+
+Section CHAIN2.
+  Variable ce : bool.
+  Variables login pass : string.
+  Variable other : string -> request -> option N.
+  Variable h : request -> N.
+
+  (* a request without an Authorization header (every browser pre-flight is one): challenged by BasicAuth itself, or
+     answered by the router's own 404/405 *)
+  Lemma dispatch_no_header : forall ops root q, assembly_ok ops = true -> q_auth q = "" ->
+    let p := dispatch ce login pass other h ops root q in
+    handler_ran p = false /\ p_gzip p = false /\
+    ((p_status p = 401%N /\ p_www p = true /\ exists pre, forallb transparent pre = true /\
+         p_trace p = (map EvNext pre ++ [EvReject 401%N])%list)
+     \/ ((p_status p = 404%N \/ p_status p = 405%N) /\ p_www p = false /\ p_trace p = [])).
+  Proof.
+    intros ops root q Hok Ha p.
+    assert (Hv : basic_auth_gen ce login pass (q_auth q) <> VPass) by (rewrite Ha, no_header_challenged; discriminate).
+    destruct (dispatch_reject ce login pass other h ops root q Hok Hv) as [Hn [Hz _]]. fold p in Hn, Hz.
+    split; [apply handler_ran_false; exact Hn|]. split; [exact Hz|].
+    subst p. unfold dispatch, dispatch_c in *.
+    destruct (find_route (compile ops root) (q_method q) (q_path q) (split_on "/"%char (q_path q)) false) as [rt| |] eqn:F;
+      cbn [plain p_status p_www p_trace]; auto.
+    assert (Hg : guarded (chain ops (rt_router rt)) = true) by (eapply ok_guarded; eauto; eapply find_route_in; eauto).
+    destruct (serve_reject ce login pass other h _ q Hg Hv) as [Hs [_ [Hw Ht]]].
+    rewrite Ha, no_header_challenged in Hs, Hw, Ht. cbn in Hs, Hw, Ht.
+    left. split; [exact Hs|]. split; [exact Hw|].
+    exists (before_auth (chain ops (rt_router rt))). split; [|exact Ht].
+    clear -Hg. induction (chain ops (rt_router rt)) as [|m r IH]; [reflexivity|].
+    destruct m; cbn in *; auto; discriminate.
+  Qed.
+
+  (* a chain WITHOUT BasicAuth (all middlewares known): the handler runs whatever the request carries *)
+  Lemma serve_no_auth : forall ch q, forallb known ch = true -> existsb (mw_eqb BasicAuth) ch = false ->
+    p_status (serve ce login pass other h ch q) = h q /\
+    p_trace (serve ce login pass other h ch q) = (map EvNext ch ++ [EvHandler])%list.
+  Proof.
+    induction ch as [|m r IH]; intros q Hk Hn; [cbn; auto|].
+    cbn [forallb] in Hk. apply andb_true_iff in Hk. destruct Hk as [Hm Hk].
+    cbn [existsb] in Hn. apply orb_false_iff in Hn. destruct Hn as [Hb Hn].
+    destruct (IH q Hk Hn) as [Hs Ht]. destruct m; try discriminate.
+    - cbn [serve]. rewrite status_gz, trace_gz. cbn. rewrite Hs, Ht. auto.
+    - cbn. rewrite Hs, Ht. auto.
+    - cbn. rewrite Hs, Ht. auto.
+  Qed.
+
+  (* why `guarded` admits only pass-through wrappers before BasicAuth: a middleware that may answer on its own does so
+     without BasicAuth ever seeing the request *)
+  Lemma answering_wrapper_short_circuits : forall n rest q st, other n q = Some st ->
+    serve ce login pass other h (MwOther n :: rest) q =
+      {| p_status := st; p_www := false; p_gzip := false; p_cors := false; p_trace := [EvShort n st] |}.
+  Proof. intros n rest q st H. cbn [serve]. rewrite H. reflexivity. Qed.
+End CHAIN2.
+
+Lemma open_check_sound : forall ops, open_check ops = true ->
+  exists rt, In rt (reachable_routes ops) /\
+    forall ce login pass other h q,
+      p_status (serve ce login pass other h (chain ops (rt_router rt)) q) = h q /\
+      In EvHandler (p_trace (serve ce login pass other h (chain ops (rt_router rt)) q)).
+Proof.
+  intros ops H. unfold open_check in H. apply existsb_exists in H. destruct H as [rt [Hin Ho]].
+  exists rt. split; [exact Hin|]. intros ce login pass other h q.
+  unfold open_route in Ho. apply andb_true_iff in Ho. destruct Ho as [Hn Hk]. apply negb_true_iff in Hn.
+  destruct (serve_no_auth ce login pass other h _ q Hk Hn) as [Hs Ht].
+  split; [exact Hs|]. rewrite Ht. apply in_or_app. right. left. reflexivity.
+Qed.
+
+(* BasicAuthMiddleware with an EMPTY password (main() does not install it then; if it were installed): accepts exactly "login:" *)
+Lemma empty_password_exact : forall login auth, has_char ":"%char login = false ->
+  (basic_auth login "" auth = VPass <-> exact_credentials login "" auth = true) /\
+  basic_auth login "" (basic_header login "") = VPass /\ basic_auth login "" "" = VChallenge401.
+Proof.
+  intros login auth Hl. split; [split; [apply pass_exact | apply exact_pass; exact Hl]|].
+  split; [apply right_header_passes; exact Hl | reflexivity].
+Qed.
+
 (* ================================================================ whole-assembly statements *)
 Section ASSEMBLY.
   Variables login pass : string.
